@@ -65,7 +65,10 @@ def run(ctx: core.Ctx):
         A = np.array([r[0] for r in rows])
         B = np.array([r[1] for r in rows])
         V = np.array([r[2] for r in rows])
+        A0, B0 = A.copy(), B.copy()
         got = np.asarray(objs[op].compute(A, B), dtype=float)
+        if not (np.array_equal(A, A0) and np.array_equal(B, B0)):
+            ctx.violation(f"{op}.compute/argument-mutated", {"op": op}, "unchanged", "modified", note="the caller's arrays were modified in place")
         ctx.count(1)
         if got.shape != V.shape or not np.array_equal(got, V, equal_nan=True):
             i = int(np.flatnonzero(~((got == V) | (np.isnan(got) & np.isnan(V))))[0]) if got.shape == V.shape else -1
@@ -106,7 +109,7 @@ def run(ctx: core.Ctx):
             ref, margin = pyref.norm(op, Fraction(a), Fraction(b))
             got = float(o.compute(a, b))
             sample = {"op": op, "a": a, "b": b}
-            near_branch = margin < 1e-12 and margin != 0  # rounding may legitimately move a+b across the branch boundary
+            near_branch = margin == 0.0  # the computed a+b / a*b falls on the other side of the branch boundary than the exact one
             dev = abs(got - float(ref))
             if not near_branch:
                 worst = max(worst, dev)
@@ -131,7 +134,8 @@ def run(ctx: core.Ctx):
                 s = float(objs[DUAL[op]].compute(a, b))
                 d = 1.0 - float(o.compute(1.0 - a, 1.0 - b))
                 m2 = pyref.norm(DUAL[op], Fraction(a), Fraction(b))[1]
-                if abs(s - d) > 1e-9 and m2 > 1e-9 and margin > 1e-9 and min(a, b, 1 - a, 1 - b) > 1e-9:
+                # 1-a and 1-b are rounded before the dual is evaluated: compare only away from the branch boundaries
+                if abs(s - d) > 1e-9 and m2 > 0 and margin > 0 and min(a, b, 1 - a, 1 - b) > 1e-9 and abs(a + b - 1) > 1e-9:
                     ctx.violation(f"{op}.compute/duality", sample, s, d)
     ctx.extra["max_deviation_random_doubles"] = worst
     ctx.exhaustive = True
